@@ -38,7 +38,7 @@ T = {
             "For each of the 16 source->target pairs, generated source files are denoted by the source-format reference, pushed through the real read/convert/write, and the output is denoted by the target-format reference; objects, columns and tempo timelines are compared at the coarser resolution and the output is checked for validity.",
             "Trusts the five reference interpreters; constituent C01-C08 monitors also fire and attribute the first diverging stage."),
     "C10": ("Fraction reference-model monitors on TimingMap.offsets/snaps/beats, Snapper.snap, BpmList.to_timing_map + round-trip checker",
-            "Every timing-engine call in generated workloads (1-8 changes, metronomes 1-8, negative offsets, unsorted/duplicated/ulp-adjacent queries) is compared with exact rational integration; query order, snapping nearest/idempotent, and ms->position->ms round trips are judged per event.",
+            "Every timing-engine call in generated workloads (1-8 changes, metronomes 1-8, negative offsets, unsorted/duplicated/ulp-adjacent queries; each constant-metronome list re-asked with the same ms and bpm under another metronome in the same process) is compared with exact rational integration; query order, snapping nearest/idempotent, and ms->position->ms round trips are judged per event.",
             "Trusts rv/ref/timing.py; the Snapper oracle holds under both readings of 'allowed fraction'."),
     "C11": ("invariant monitors (exact integrator on input and output) on reseat_bpm_changes_snap / from_bpm_changes_snap(reseat) / TimingMap.reseat + branch reach probes",
             "Every reseat execution on exhaustive half-beat-grid lists and random finer grids is checked for the five stated invariants; sys.monitoring probes record which of the reseat branches were taken.",
